@@ -28,6 +28,9 @@ type streamCase struct {
 	data    []byte
 	cleanly bool // only valid frames and non-marker junk: completeness is asserted
 	ts0     uint64
+	// wholeRejects: a clean stream that also holds complete frames which are refused as a whole (wrong checksum for
+	// a known message, wrong signature, v1 or unsigned under a key): completeness still holds
+	wholeRejects bool
 }
 
 func nonMarkerJunk(t *rapid.T, label string) []byte {
@@ -52,10 +55,12 @@ func drawStream(t *rapid.T, dpool []*dialectInfo) *streamCase {
 		sc.key = &k
 	}
 	sc.cleanly = rapid.IntRange(0, 2).Draw(t, "cleanly") == 0
+	sc.wholeRejects = sc.cleanly && rapid.Bool().Draw(t, "complete_refused_frames_between")
 	nseg := rapid.IntRange(1, 8).Draw(t, "nseg")
 	// the sender's clock: anywhere, including a counter that started at boot a moment ago
 	ts := uint64(rapid.OneOf(rapid.Uint64Range(2000000, 1<<40), rapid.Uint64Range(1, 999999), rapid.Uint64Range(0, 3000000)).Draw(t, "ts0"))
 	sc.ts0 = ts
+	forceDialect := false
 	mkValid := func() (ref.Frame, string) {
 		o := gen.FrameOpts{}
 		if sc.key != nil {
@@ -63,7 +68,7 @@ func drawStream(t *rapid.T, dpool []*dialectInfo) *streamCase {
 		}
 		var f ref.Frame
 		kind := "valid-raw"
-		if sc.di != nil && rapid.Bool().Draw(t, "in_dialect") {
+		if sc.di != nil && (forceDialect || rapid.Bool().Draw(t, "in_dialect")) {
 			f, _, _ = validFrame(t, sc.di, o, sc.key)
 			kind = "valid-dialect"
 		} else {
@@ -86,13 +91,23 @@ func drawStream(t *rapid.T, dpool []*dialectInfo) *streamCase {
 	}
 	for i := 0; i < nseg; i++ {
 		choices := []string{"valid", "valid", "junk"}
+		if sc.cleanly && sc.wholeRejects {
+			// complete frames that are refused as a whole: whatever they contain, the frames after them are found
+			if sc.di != nil {
+				choices = append(choices, "badcrc-known")
+			}
+			if sc.key != nil {
+				choices = append(choices, "badsig", "v1-under-key", "unsigned-under-key")
+			}
+		}
 		if !sc.cleanly {
 			choices = append(choices, "truncated", "badcrc", "badsig", "badflag", "markerjunk", "glued")
 			if sc.di != nil && sc.key == nil {
 				choices = append(choices, "v1-wrong-length")
 			}
 		}
-		switch rapid.SampledFrom(choices).Draw(t, "segkind") {
+		segKind := rapid.SampledFrom(choices).Draw(t, "segkind")
+		switch segKind {
 		case "valid":
 			f, kind := mkValid()
 			sc.segs = append(sc.segs, segment{kind: kind, bytes: f.Bytes(), valid: true})
@@ -118,6 +133,32 @@ func drawStream(t *rapid.T, dpool []*dialectInfo) *streamCase {
 				f.Sig = f.SignatureFor(*sc.key)
 			}
 			sc.segs = append(sc.segs, segment{kind: "badcrc", bytes: f.Bytes()})
+		case "badcrc-known":
+			forceDialect = true
+			f, _ := mkValid()
+			forceDialect = false
+			f.Checksum ^= uint16(rapid.IntRange(1, 0xFFFF).Draw(t, "crcx"))
+			if f.Signed() && sc.key != nil {
+				f.Sig = f.SignatureFor(*sc.key)
+			}
+			sc.segs = append(sc.segs, segment{kind: "badcrc", bytes: f.Bytes()})
+		case "v1-under-key", "unsigned-under-key":
+			// a well-formed frame that a keyed reader refuses for what it is; header and payload bytes are whatever
+			// the sender put there, marker values included
+			f := gen.RawFrame(t, gen.FrameOpts{Version: 1})
+			if segKind == "unsigned-under-key" {
+				f = gen.RawFrame(t, gen.FrameOpts{Version: 2, Signed: 1})
+			}
+			hot := []byte{0xFD, 0xFE, 0xFD, 1, 0}
+			f.Seq = rapid.OneOf(rapid.SampledFrom(hot), rapid.Byte()).Draw(t, "uk_seq")
+			f.Sys = rapid.OneOf(rapid.SampledFrom(hot), rapid.Byte()).Draw(t, "uk_sys")
+			f.Comp = rapid.OneOf(rapid.SampledFrom(hot), rapid.Byte()).Draw(t, "uk_comp")
+			if sc.di != nil {
+				for sc.di.layouts[f.ID] != nil {
+					f.ID = (f.ID + 1) & 0xFF
+				}
+			}
+			sc.segs = append(sc.segs, segment{kind: "refused-under-key", bytes: f.Bytes()})
 		case "badsig":
 			f, _ := mkValid()
 			if f.Signed() {
@@ -390,7 +431,7 @@ func checkStreamSizes(t *rapid.T, sc *streamCase, rec *evid.Rec, fixedSizes []in
 
 func TestC05Streams(t *testing.T) {
 	rec := evid.New(t, "C05", "streams from a grammar (valid raw/dialect/signed frames, truncated frames, damaged checksum/signature/flags, junk with and without markers, glued frames) fed whole, byte-wise, in generated chunks and with a transport error injected at a generated offset; oracles: no panic, progress, consumed-span exactness against the reference, identical (kind,span) sequences across feedings, completeness on clean streams, the transport's own error surfaces; non-trivial = a delivered frame straddles a read boundary, or markers inside noise, or a truncated frame; distinct by hash of (stream, chunking)")
-	rec.Require("frame-straddles-read-boundary", "seg-markerjunk", "seg-truncated", "clean-stream", "keyed", "dialect", "fault-injected", "seg-badcrc", "seg-badsig", "seg-v1-wrong-length", "keyed-sender-clock-below-the-window-length")
+	rec.Require("frame-straddles-read-boundary", "seg-markerjunk", "seg-truncated", "clean-stream", "keyed", "dialect", "fault-injected", "seg-badcrc", "seg-badsig", "seg-v1-wrong-length", "keyed-sender-clock-below-the-window-length", "seg-refused-under-key")
 	dpool := pool(t)
 	evid.Check(t, rec, evid.N(40000, 150000), func(t *rapid.T) {
 		drawBufSize(t)
